@@ -137,6 +137,69 @@ def run(ctx, facts):
                     elif tb.name in ("insert", "try_insert", "put") and len(c.args) >= 3:
                         ok, why = guard_origin_ok(facts, b, c, len(c.args) - 1, 0)
                         ctx.inst("V2", b, "%s with own guard" % tb.name, c.span, ok, "guard from guard()/pin() of the same collection" if ok else why)
+    if "serde" in feats:
+        # V4: what was pulled from the deserialiser is inserted before the next pull / before returning
+        ctx.rule("V4", "every entry pulled from the deserialiser reaches an insert of the new collection before the next pull or the return")
+        ctx.set_floor("V4", 2, "visit_map, visit_seq")
+        from .rules_c17 import inserting
+        ins_ids = {b.id for b, _, _ in inserting(facts)[0]}
+        for b, rb in de_bodies(facts):
+            access = [c for c in b.calls if c.kind in ("param_trait_method", "trait_method_unresolved")
+                      and c.name in ("next_entry", "next_element", "next_key", "next_entry_seed", "next_element_seed", "next_key_seed")
+                      and not b.is_cleanup(c.b)]
+            if not access:
+                continue
+            fl = flow(b)
+            acc_pts = {a.point for a in access}
+            from .analysis import return_points
+            rets = set(return_points(b))
+            for a in access:
+                dl = a.dst_local()
+                if dl is None:
+                    continue
+                derived = fl.flows_to(dl)
+                # the Some arm is where the payload is taken out of the pulled Option: statements reading (x as Some).* with x deriving
+                # from the pulled result (drop elaboration re-tests the discriminant elsewhere but only *drops* such places)
+                starts = []
+                for bi, blk in enumerate(b.blocks):
+                    if blk["cleanup"]:
+                        continue
+                    for si, st_ in enumerate(blk["stmts"]):
+                        if st_["k"] != "assign":
+                            continue
+                        rv = st_["rv"]
+                        pl = rv.get("ref") or (rv.get("use") and (rv["use"].get("copy") or rv["use"].get("move")))
+                        if not pl or pl["local"] not in derived:
+                            continue
+                        if any(isinstance(e, dict) and e.get("downcast") == "Some" for e in pl["proj"]):
+                            starts.append((Point(bi, si), pl["local"]))
+                if not starts:
+                    ctx.inst("V4", b, "pull at %s" % a.span.split(":", 1)[1], a.span, False,
+                             "cannot find where the payload of the pulled Option is taken out: the rule cannot follow the entry")
+                    continue
+                def sinks_of(src):
+                    payload = fl.flows_to(src)
+                    out = set()
+                    for c in b.calls:
+                        tb = facts.by_id.get(c.resolved)
+                        if tb is not None and tb.id in ins_ids and any(op_root(x) in payload for x in c.args):
+                            out.add(c.point)
+                    return out
+                # only the first extraction on a path starts an obligation
+                all_sinks = set().union(*[sinks_of(src) for _, src in starts])
+                cand = {st for st, _ in starts}
+                first = [(st, src) for st, src in starts
+                         if st in reach(b, after(b, a.point, label="ret"), avoid=all_sinks | (cand - {st}), unwind=False)]
+                for st, src in first:
+                    sinks = sinks_of(src)
+                    r = reach(b, [st], avoid=sinks, unwind=False)
+                    lost = [p for p in acc_pts if p in r] + [p for p in rets if p in r]
+                    ctx.inst("V4", b, "entry pulled at %s" % a.span.split(":", 1)[1], a.span, bool(sinks) and not lost,
+                             "every path from the Some arm to the next pull or the return inserts the entry (%d inserting call(s))" % len(sinks)
+                             if sinks and not lost else
+                             ("the pulled entry is never handed to an inserting function of the collection" if not sinks else
+                              "a path from the Some arm reaches %s at %s without inserting the entry: input entries are silently dropped"
+                              % ("the next pull" if lost[0] in acc_pts else "the return", b.span_at(lost[0]))))
     if "rayon" in feats:
         ctx.set_floor("V3", 8, "8 impl methods + closures in rayon_impls.rs")
         rb_all = [b for b in facts.bodies if file_of(b).endswith("rayon_impls.rs")]
